@@ -15,7 +15,7 @@ claims = {
  "C03": ("the steps that protect reader snapshots: Freelist::release(x) for all ids/bounds; Tx::new(writer) releases with bound = oldest open reader (or committed+1) for all reader lists of 2 ids; Tx::new(reader) registers the committed id and changes nothing else; drop removes exactly one registration (duplicates kept); header selection picks the newest valid header.", "6/C03"),
  "C05": ("page accounting steps: contiguous-run allocation, TxFreelist::allocate/free for every (bytes, pagesize), pages() = sorted duplicate-free union, write_node inside Node::size(), a node frees its old run once, delete_bucket frees every reachable run (overflow runs, branch/leaf/nested bucket) exactly once. Whole-file well-formedness after histories is outside.", "6/C05"),
  "C06": ("read-only guards of every mutator (Tx and Bucket level) return ReadOnlyTx before touching anything; a writer that frees/allocates and is dropped leaves the shared free list, reader list, header and file op log untouched; open() and begin write nothing; failing bucket calls change nothing.", "6/C06"),
- "C07": ("in-transaction reads through the node overlay on hand-laid one- and two-leaf trees: get after put/delete, full scans after a put (new or overwrite), after a delete, after emptying the first of two leaves, and across an untouched page into a materialised node. Seek/range over overlays and deeper trees are outside.", "6/C07"),
+ "C07": ("in-transaction reads through the node overlay: put / delete / create_bucket as single symbolic steps with the materialised leaf inspected afterwards, point lookups, a concrete delete-then-scan scenario, the scan over a tree whose first leaf is shadowed by an emptied node (constructed state, symbolic keys), and the first item of Tx::buckets() after a creation. Scans after puts and two-leaf overlay scenarios do not finish symbolic execution (parked, run natively only); seek/range over overlays and deeper trees are outside.", "6/C07"),
  "C08": ("binary-search contract (slot, exact) on pages and nodes; full cursor scans over an empty bucket, one leaf and a branch over two leaves incl. repeated next() after the end; seek for every key on a 3-key leaf; range scans for all 9 combinations of bound kinds with symbolic bound keys on a 3-key leaf.", "6/C08"),
  "C10": ("the reuse mechanisms: allocate finds a run whenever one exists, release frees every list older than the bound and writer begin passes the right bound, TxFreelist::allocate asks the free set before extending the file, commit persists free+pending and open() reloads the free list of the newest header.", "6/C10"),
  "C11": ("every fallible file call of the commit failing in turn (12 concrete fault plans incl. short writes): commit returns Err(Io) without panicking, the writer lock is released, pages in use are untouched, the file shows exactly the pre- or the post-transaction header and the handle's in-memory free list is coherent with it. Further histories after the fault and RLIMIT-style extension failures are outside.", "6/C11"),
